@@ -5,6 +5,7 @@
 -/
 import Nlmodel.Proofs.Lemmas.GCReach
 import Nlmodel.Proofs.Lemmas.TypeInv
+import Nlmodel.Proofs.Lemmas.NoDangle
 import Nlmodel.Model.Pipeline
 namespace Nl
 namespace C03
@@ -243,6 +244,40 @@ theorem C03_every_return_of_every_run_keeps_reachable (prev : VM) (bc : Bytecode
 
 /-- non-vacuity: a fresh machine is well-typed, and so is what any run leaves behind for the next line -/
 example : TI.WT ({} : VM) := TI.wt_empty
+
+/-- NO PROGRAM EVER OBSERVES A FREED OBJECT (`ND.exec_ok`, all instructions, collections included): in
+    every state that a run of ANY program on a fresh machine passes through — after any number of
+    instructions, calls, returns and collections — (1) every value the machine holds (operand stack
+    and locals of all frames, constants, globals, the last-popped register) points to a cell that has
+    not been released, (2) so does every element of every array that has not been released, hence
+    everything reachable from what the machine holds, and (3) every cell not yet released is managed
+    by the run's collector (so the end of the run releases it, exactly once by
+    `C04_managed_never_lists_twice`, unless it is handed over with the result). -/
+theorem C03_no_dangling_reference (bc : Bytecode) (s : VM) (hs : TI.Reachable bc.code (({} : VM).start bc) s) :
+    (∀ v, v ∈ held s → ∀ a, v.addr? = some a → s.mem.heap.get a ≠ .freed) ∧
+    (∀ a vs, s.mem.heap.get a = .arr vs → ∀ v, v ∈ vs → ∀ b, v.addr? = some b → s.mem.heap.get b ≠ .freed) ∧
+    (∀ a, s.mem.heap.get a ≠ .freed → a ∈ s.mem.managed) := by
+  have h := (ND.reachable_safe bc.code _ (ND.start_safe bc) s hs).2
+  refine ⟨?_, h.hok.elems, h.hok.allm⟩
+  intro v hv
+  simp only [held, List.mem_append, List.mem_singleton] at hv
+  rcases hv with ((hv | hv) | hv) | hv
+  · exact h.stack v hv
+  · exact h.cvals v hv
+  · exact h.globals v hv
+  · rw [hv]; exact h.last
+
+/-- ... and the value a run hands back at `Halt` does not dangle either -/
+theorem C03_result_does_not_dangle (bc : Bytecode) (s : VM) (hs : TI.Reachable bc.code (({} : VM).start bc) s) (v : Value) (s' : VM)
+    (hh : step bc.code s = .halt v s') : ∀ a, v.addr? = some a → s'.mem.heap.get a ≠ .freed := by
+  have h := ND.reachable_safe bc.code _ (ND.start_safe bc) s hs
+  unfold step at hh
+  split at hh
+  · cases hh
+  · rename_i i _
+    have := ND.exec_ok i (s.ip + i.size) s h.2 h.1
+    rw [hh] at this
+    exact this.2
 
 end C03
 end Nl
